@@ -14,6 +14,17 @@ import SfntV.Proofs.TotalHeader
 import SfntV.Generated.Total
 import SfntV.Proofs.TotalGlyfDec
 import SfntV.Proofs.TotalGlyfLazy
+import SfntV.Proofs.TotalCmap4
+import SfntV.Proofs.TotalCmap12
+import SfntV.Proofs.TotalMetrics
+import SfntV.Proofs.TotalMetricsPost
+import SfntV.Proofs.TotalMetricsErase
+import SfntV.Proofs.TotalMetricsExamples
+import SfntV.Proofs.TotalName
+import SfntV.Proofs.TotalCffIndex
+import SfntV.Proofs.TotalCmapDir
+import SfntV.Proofs.TotalOtl
+import SfntV.Proofs.TotalOtlBridge
 
 namespace SfntV.Props.C02
 open SfntV SfntV.Total
@@ -206,5 +217,224 @@ theorem C02_lazy_safe_components (data : Bytes) (cs : List Glyf.Component) (ins 
     (h : GlyfLazy.decodeGlyphComposite data = .ok ((cs, ins), c)) (hlen : data.length < 2 ^ 47) :
     (GlyfLazy.components (some (GlyfLazy.GData.composite cs ins))).noPanic :=
   GlyfLazy.components_decoded_noPanic data cs ins c h hlen
+
+/-! ## cmap format 4 -/
+
+/-- `decodeFormat4` returns a value or an error for every byte string. -/
+theorem C02_cmap4_no_panic (b : Bytes) : (Total.Cmap4.decodeFormat4 b).noPanic :=
+  Total.Cmap4.decodeFormat4_noPanic b
+
+/-- Its cost is linear plus the constant 65536 (segments must be increasing, so the fill loops run
+at most once per 16-bit code). -/
+theorem C02_cmap4_cost (b : Bytes) (r : List (Nat × Nat)) (c : Cost)
+    (h : Total.Cmap4.decodeFormat4 b = .ok (r, c)) :
+    c.steps ≤ b.length / 2 + b.length / 8 + 65536 ∧ c.alloc ≤ b.length / 2 + 65536 :=
+  Total.Cmap4.decodeFormat4_cost b r c h
+
+/-- Bridge to C09's value-level model. -/
+theorem C02_cmap4_agrees (b : Bytes) :
+    Total.Cmap4.erase (Total.Cmap4.decodeFormat4 b) = SfntV.Cmap4.decode b :=
+  Total.Cmap4.decodeFormat4_erase b
+
+/-- lazy accessors of a format 4/6 map: `Lookup` (any rune, negative ones included) and `CodeRange` -/
+theorem C02_lazy_safe_cmap4 (m : List (Nat × Nat)) (r : Int) :
+    (Total.Cmap4.lookup m r).noPanic ∧ (Total.Cmap4.codeRange m).noPanic :=
+  ⟨Total.Cmap4.lookup_noPanic m r, Total.Cmap4.codeRange_noPanic m⟩
+
+/-! ## cmap format 12 -/
+
+theorem C02_cmap12_no_panic (data : Bytes) (c2r : Bool) : (Total.Cmap12.decodeFormat12 data c2r).noPanic :=
+  Total.Cmap12.decodeFormat12_noPanic data c2r
+
+/-- Because the 65536 cap is on the CUMULATIVE number of mappings, a successful decode writes at
+most 65536 entries whatever the number of groups. -/
+theorem C02_cmap12_cost (data : Bytes) (c2r : Bool) (m : Total.Cmap12.KV) (c : Cost)
+    (h : Total.Cmap12.decodeFormat12 data c2r = .ok (m, c)) :
+    c.steps ≤ data.length / 12 + 65536 ∧ c.alloc ≤ 65536 + 1 ∧ m.length ≤ 65536 :=
+  let t := Total.Cmap12.decodeFormat12_cost data c2r m c h; ⟨t.1, t.2.1, t.2.2.1⟩
+
+/-- Why the cap must be cumulative: the variant whose counter is reset per group allocates
+`n·65536` entries from `16 + 12·n` bytes (this is the seeded change the fuzz stream must catch). -/
+theorem C02_cmap12_per_group_cap_fails :
+    ¬ ∀ b m c, Total.Cmap12.decodeFormat12PerGroup b = .ok (m, c) → c.alloc ≤ 5000 * b.length + 65537 :=
+  Total.Cmap12.perGroup_unbounded
+
+theorem C02_cmap12_agrees (data : Bytes) (c2r : Bool) :
+    Total.Cmap12.erase (Total.Cmap12.decodeFormat12 data c2r) =
+      Total.Cmap12.ofExcept ((SfntV.Cmap12.decode data c2r).map SfntV.Cmap12.expand) :=
+  Total.Cmap12.decodeFormat12_erase data c2r
+
+theorem C02_lazy_safe_cmap12 (m : Total.Cmap12.KV) (code : Int) (keys : List Nat) :
+    (Total.Cmap12.lookup m code).noPanic ∧ (Total.Cmap12.codeRange keys).noPanic :=
+  ⟨Total.Cmap12.lookup_noPanic m code, Total.Cmap12.codeRange_noPanic keys⟩
+
+/-! ## hmtx.Decode, head.Read, os2.Read, post.Read -/
+
+theorem C02_hmtx_no_panic (hhea : Bytes) (hmtx : Option Bytes) : (Metrics.hmtxDecode hhea hmtx).noPanic :=
+  Metrics.hmtxDecode_noPanic hhea hmtx
+
+theorem C02_hmtx_cost (hhea : Bytes) (hmtx : Option Bytes) (d : Metrics.Decoded) (c : Cost)
+    (h : Metrics.hmtxDecode hhea hmtx = .ok (d, c)) :
+    c.steps ≤ (hmtx.getD []).length / 2 + 1 ∧ c.alloc ≤ (hmtx.getD []).length + 1 :=
+  let t := Metrics.hmtxDecode_cost hhea hmtx d c h; ⟨t.1, t.2.1⟩
+
+theorem C02_head_no_panic (b : Bytes) : (Metrics.headRead b).noPanic := Metrics.headRead_noPanic b
+theorem C02_head_cost (b : Bytes) (r : Metrics.Head) (c : Cost) (h : Metrics.headRead b = .ok (r, c)) :
+    c.steps ≤ 1 ∧ c.alloc ≤ 1 := let t := Metrics.headRead_cost b r c h; ⟨t.1, t.2.1⟩
+
+theorem C02_os2_no_panic (b : Bytes) : (Metrics.os2Read b).noPanic := Metrics.os2Read_noPanic b
+theorem C02_os2_cost (b : Bytes) (r : Metrics.Os2) (c : Cost) (h : Metrics.os2Read b = .ok (r, c)) :
+    c.steps ≤ 4 ∧ c.alloc ≤ 5 := let t := Metrics.os2Read_cost b r c h; ⟨t.1, t.2.1⟩
+
+/-- `post.Read` (header and format 2 names) for any table of standard names. -/
+theorem C02_post_no_panic (tbl : List Bytes) (b : Bytes) : (Metrics.postRead tbl b).noPanic :=
+  Metrics.postRead_noPanic tbl b
+theorem C02_post_cost (tbl : List Bytes) (b : Bytes) (r : Metrics.PostInfo) (c : Cost)
+    (h : Metrics.postRead tbl b = .ok (r, c)) : c.steps ≤ 2 * b.length ∧ c.alloc ≤ b.length :=
+  Metrics.postRead_cost tbl b r c h
+
+/-- Bridges to C12's value-level models (Model/Metrics.lean); for post only the header part. -/
+theorem C02_metrics_agree (hhea b : Bytes) (hmtx : Option Bytes) :
+    Metrics.erase (Metrics.hmtxDecode hhea hmtx) = SfntV.Metrics.decode hhea hmtx ∧
+    Metrics.erase (Metrics.headRead b) = SfntV.Metrics.decodeHead b ∧
+    Metrics.erase (Metrics.os2Read b) = SfntV.Metrics.decodeOs2 b :=
+  ⟨Metrics.hmtxDecode_erase hhea hmtx, Metrics.headRead_erase b, Metrics.os2Read_erase b⟩
+
+/-! ## name.Decode and CFF readIndex -/
+
+theorem C02_name_no_panic (apple ms : Nat → String) (mac : UInt8 → Nat) (data : Bytes) :
+    (NameCff.decode apple ms mac data).noPanic := NameCff.nameDecode_noPanic apple ms mac data
+
+/-- The TRUE cost of `name.Decode`: (number of records ≤ min(|b|/12, 5460)) × (record length ≤ 65535):
+quadratic up to a cap, because records may share storage and each is decoded again. -/
+theorem C02_name_cost_partial (apple ms : Nat → String) (mac : UInt8 → Nat) (data : Bytes)
+    (r : List Names.Entry) (c : Cost) (h : NameCff.decode apple ms mac data = .ok (r, c)) :
+    c.steps ≤ 2 + min (data.length / 12) 5460 * (1 + min 65535 data.length) ∧
+      c.alloc ≤ 2 + min (data.length / 12) 5460 * (3 + 2 * min 65535 data.length) :=
+  NameCff.nameDecode_cost apple ms mac data r c h
+
+/-- The linear clause fails for `name.Decode` (known finding C02-name-record-alias). -/
+theorem C02_name_cost_fails (apple ms : Nat → String) (mac : UInt8 → Nat) (hms : ms 1033 ≠ "") :
+    ¬ ∀ b r c, NameCff.decode apple ms mac b = .ok (r, c) → c.steps ≤ 1024 * b.length + 16777216 :=
+  NameCff.decode_steps_not_linear apple ms mac hms
+
+theorem C02_name_agrees (data : Bytes) :
+    NameCff.toOpt (NameCff.decode (Names.langGet Gen.appleBCP) (Names.langGet Gen.msBCP)
+      (fun c => Names.fixRune (Names.macDecodeByte c.toNat)) data) = Names.nameDecode (NameCff.nat data) :=
+  NameCff.decode_erase_gen data
+
+theorem C02_cffindex_no_panic (b : Bytes) (pos : Nat) : (NameCff.readIndex b pos).noPanic :=
+  NameCff.readIndex_noPanic b pos
+theorem C02_cffindex_cost (b : Bytes) (pos : Nat) (r : List Bytes × Nat) (c : Cost)
+    (h : NameCff.readIndex b pos = .ok (r, c)) :
+    c.steps ≤ 2 * b.length + b.length / 1024 + 3 ∧ c.alloc ≤ 3 * b.length :=
+  NameCff.readIndex_cost b pos r c h
+theorem C02_cffindex_agrees (b : Bytes) (pos : Nat) :
+    NameCff.eraseC (NameCff.readIndex b pos) = Cff.readIndex b pos := NameCff.readIndex_erase b pos
+
+/-! ## cmap.Decode (table directory), Table.Get, formats 0 and 6 -/
+
+theorem C02_cmap_no_panic (b : Bytes) : (CmapDir.decode b).noPanic := CmapDir.Decode_noPanic b
+
+/-- The TRUE cost of `cmap.Decode`: allocation linear, steps QUADRATIC in the number of records
+(`sort.Search` + `slices.Insert` per record): 64·steps ≤ 64 + |b|². -/
+theorem C02_cmap_cost_partial (b : Bytes) (t : CmapTable.Table) (c : Cost)
+    (h : CmapDir.decode b = .ok (t, c)) : 64 * c.steps ≤ 64 + b.length * b.length ∧ c.alloc ≤ b.length :=
+  CmapDir.Decode_cost b t c h
+
+theorem C02_cmap_agrees (b : Bytes) : CmapDir.erase (CmapDir.decode b) = CmapTable.decode b :=
+  CmapDir.Decode_erase b
+
+/-- the format-4 and format-12 decoders as `Table.Get` dispatches to them -/
+def cmapDec4 : CmapDir.Dec CmapDir.Sub := fun d _ =>
+  Total.Cmap4.decodeFormat4 d >>= fun r => pure (.m16 r.1)
+def cmapDec12 : CmapDir.Dec CmapDir.Sub := fun d mac =>
+  Total.Cmap12.decodeFormat12 d mac >>= fun _ => pure (.ext 12)
+
+/-- `C02_lazy_safe`, cmap part: on whatever `cmap.Decode` returned, `Table.Get(key)` — the index
+reads `data[0]`, `data[1]`, the `decoders[format]` lookup (a missing entry would be a nil-func call)
+and the format 0/4/6/12 decoders it dispatches to — returns a value or an error, for every key. -/
+theorem C02_lazy_safe_cmap_get (b : Bytes) (t : CmapTable.Table) (c : Cost)
+    (h : CmapDir.decode b = .ok (t, c)) (key : CmapTable.Key) :
+    (CmapDir.get (CmapDir.decoders cmapDec4 cmapDec12) t key).noPanic := by
+  have h4 : ∀ (d : Bytes) (mac : Bool), 10 ≤ d.length → (cmapDec4 d mac).noPanic := fun d _ _ =>
+    Total.Gdef.bind_noPanic (Total.Cmap4.decodeFormat4_noPanic d) (fun _ _ => True.intro)
+  have h12 : ∀ (d : Bytes) (mac : Bool), 12 ≤ d.length → (cmapDec12 d mac).noPanic := fun d mac _ =>
+    Total.Gdef.bind_noPanic (Total.Cmap12.decodeFormat12_noPanic d mac) (fun _ _ => True.intro)
+  obtain ⟨hreg, hdec⟩ := CmapDir.decoders_spec cmapDec4 cmapDec12 h4 h12
+  exact CmapDir.Get_noPanic _ hreg hdec b t c h key
+
+/-- `decodeFormat0` slices `data[6:]` unguarded; `cmap.Decode` only stores subtables of ≥ 10 bytes. -/
+theorem C02_cmap0_no_panic (data : Bytes) (h : 6 ≤ data.length) : (CmapDir.decodeFormat0 data).noPanic :=
+  CmapDir.decodeFormat0_noPanic data h
+
+/-- `Format0.Lookup` (as repaired: negative runes are refused) is safe for every rune. -/
+theorem C02_lazy_safe_cmap0 (d : Bytes) (h : d.length = 256) (r : Int) : (CmapDir.lookup0 d r).noPanic :=
+  CmapDir.Format0_lookup_safe d h r
+
+/-- Before the repair every negative rune indexed `cmap.Data[r]` out of range. -/
+theorem C02_cmap0_lookup_unrepaired_panics (d : Bytes) (r : Int) (h : r < 0) :
+    CmapDir.lookup0Old d r = .panic "format0.go:54#cmap.Data[r]" :=
+  CmapDir.Format0_lookup_negative_panics d r h
+
+theorem C02_cmap6_no_panic (c2r : Nat → Nat) (data : Bytes) : (CmapDir.decodeFormat6 c2r data).noPanic :=
+  CmapDir.decodeFormat6_noPanic c2r data
+
+theorem C02_cmap6_cost (c2r : Nat → Nat) (data : Bytes) (ws : List (Nat × Nat)) (c : Cost)
+    (h : CmapDir.decodeFormat6 c2r data = .ok (ws, c)) :
+    c.steps ≤ data.length / 2 ∧ c.alloc ≤ data.length / 2 := CmapDir.decodeFormat6_cost c2r data ws c h
+
+theorem C02_cmap06_agree (c2r : Nat → Nat) (b : Bytes) :
+    CmapDir.erase (CmapDir.decodeFormat0 b) = CmapDir.unsite (Cmap06.decode0 b) ∧
+    CmapDir.erase (CmapDir.decodeFormat6 c2r b) = CmapDir.ofRes6 (Cmap06.decode6 b c2r) :=
+  ⟨CmapDir.decodeFormat0_erase b, CmapDir.decodeFormat6_erase c2r b⟩
+
+/-! ## coverage.Read, coverage.ReadSet, classdef.Read -/
+
+theorem C02_coverage_no_panic (b : Bytes) (pos : Nat) :
+    (Total.Otl.coverageRead b pos).noPanic ∧ (Total.Otl.readSet b pos).noPanic :=
+  ⟨Total.Otl.coverageRead_noPanic b pos, Total.Otl.readSet_noPanic b pos⟩
+
+/-- Coverage tables: linear plus a constant cap (format 2 ranges must be increasing, so at most
+65536 entries — 131072 writes for ReadSet, which lets ranges touch).  A 10-byte table reaches the cap. -/
+theorem C02_coverage_cost (b : Bytes) (pos : Nat) :
+    (∀ r c, Total.Otl.coverageRead b pos = .ok (r, c) → c.steps ≤ b.length / 2 + 65538 ∧ c.alloc ≤ 65537) ∧
+    (∀ r c, Total.Otl.readSet b pos = .ok (r, c) → c.steps ≤ b.length / 2 + 131073 ∧ c.alloc ≤ 131072) :=
+  ⟨Total.Otl.coverageRead_cost b pos, Total.Otl.readSet_cost b pos⟩
+
+theorem C02_classdef_no_panic (b : Bytes) (pos : Nat) : (Total.Otl.classdefRead b pos).noPanic :=
+  Total.Otl.classdefRead_noPanic b pos
+
+/-- The TRUE cost of `classdef.Read`: (number of ranges) × 65536 in format 2. -/
+theorem C02_classdef_cost_partial (b : Bytes) (pos : Nat) (r : List (Nat × Nat)) (c : Cost)
+    (h : Total.Otl.classdefRead b pos = .ok (r, c)) :
+    c.steps ≤ b.length / 6 * 65537 + b.length / 2 + 2 ∧ c.alloc ≤ b.length / 6 * 65536 + b.length / 2 + 1 :=
+  Total.Otl.classdefRead_cost b pos r c h
+
+/-- Finding #36 as a theorem: ranges with end < start lower `prevEnd`, so the pair
+(1..65534),(65535..0) may repeat: `12·n + 4` bytes cost `2 + n·65536` steps. -/
+theorem C02_classdef_cost_fails :
+    ¬ ∀ b pos r c, Total.Otl.classdefRead b pos = .ok (r, c) → c.steps ≤ 2000 * b.length + 2000 :=
+  Total.Otl.classdefRead_not_linear
+
+/-- With the offered repair (patches/C02/03: reject end < start) the bound is linear plus the cap. -/
+theorem C02_classdef_repaired_cost (b : Bytes) (pos : Nat) (r : List (Nat × Nat)) (c : Cost)
+    (h : Total.Otl.classdefReadFixed b pos = .ok (r, c)) : c.steps ≤ b.length / 2 + 65538 ∧ c.alloc ≤ 65537 :=
+  Total.Otl.classdefReadFixed_cost b pos r c h
+
+/-- Bridges to C08's value-level models (Model/OtlCoverage.lean, OtlClassDef.lean). -/
+theorem C02_otl_agree (b : Bytes) (pos : Nat) :
+    Total.Otl.erase (Total.Otl.coverageRead b pos) = SfntV.Otl.Cov.read (b.drop pos) ∧
+    Total.Otl.erase (Total.Otl.readSet b pos) = SfntV.Otl.Cov.readSet (b.drop pos) ∧
+    Total.Otl.erase (Total.Otl.classdefRead b pos) = SfntV.Otl.ClassDef.read (b.drop pos) :=
+  ⟨Total.Otl.coverageRead_erase b pos, Total.Otl.readSet_erase b pos, Total.Otl.classdefRead_erase b pos⟩
+
+/-- `gdef.Read` with its real sub-readers plugged in: no hypothesis left. -/
+theorem C02_gdef_concrete_no_panic (b : Bytes) :
+    (Gdef.read (fun pos => Total.Otl.classdefRead b pos >>= fun r => pure (r.1.length, r.2))
+               (fun pos => Total.Otl.readSet b pos >>= fun r => pure (r.1.length, r.2)) b).noPanic :=
+  Gdef.read_noPanic _ _ b
+    (fun pos => Total.Gdef.bind_noPanic (Total.Otl.classdefRead_noPanic b pos) (fun _ _ => True.intro))
+    (fun pos => Total.Gdef.bind_noPanic (Total.Otl.readSet_noPanic b pos) (fun _ _ => True.intro))
 
 end SfntV.Props.C02
